@@ -56,8 +56,8 @@ fn units_for(prop: &str, tier: Tier) -> u64 {
         ("C15", Tier::Thorough) => 400_000,
         ("C04", Tier::Quick) | ("C05", Tier::Quick) => 8_000,
         ("C04", Tier::Thorough) | ("C05", Tier::Thorough) => 300_000,
-        ("C14", Tier::Quick) => 20_000,
-        ("C14", Tier::Thorough) => 1_000_000,
+        ("C14", Tier::Quick) => 60_000,
+        ("C14", Tier::Thorough) => 3_000_000,
         ("C07", Tier::Quick) => 6_000,
         ("C07", Tier::Thorough) => 200_000,
         _ => 1_000,
